@@ -220,17 +220,20 @@ func containsWildcards(name string) bool {
 // dedupePaths expects input as a sorted list
 func dedupePaths(in []string) []string {
 	out := make([]string, 0, len(in))
-	var last string
+loop:
 	for _, s := range in {
 		// if one of the paths is root there is no filter
 		if s == "." {
 			return nil
 		}
-		if strings.HasPrefix(s, last+"/") {
-			continue
+		// bytewise order puts "a!" between "a" and "a/z", so every kept path
+		// has to be checked, not only the last one
+		for _, o := range out {
+			if strings.HasPrefix(s, o+"/") {
+				continue loop
+			}
 		}
 		out = append(out, s)
-		last = s
 	}
 	return out
 }
